@@ -1,8 +1,428 @@
 import GB.Base.Proto
+import GB.C09.Spec
+/-
+  C09 driver.  Case lines (all byte strings hex, see harness/c09):
+
+  dec <opts> <card> <kind> <key|-> <text>  =>  <u0|u1> <tree|!> fp:<tbl> <impl> <oracle>
+      opts: letters d (DiscardUnknown) / s (strict) [/ n UseEnumNumbers]
+      tree: the first JSON value of <text> as encoding/json tokenizes it, `!` if it cannot
+      fp:   strconv.ParseFloat results for the string/number leaves (float kinds only)
+      impl / oracle: ERR | PANIC | OK:<has>:<field>   (oracle = protojson on {"f": <first value>})
+  enc <opts> <card> <kind> <key|-> <field> =>  <tree|ERR|PANIC> ff:<tbl> fp:<tbl> <roundtrip> <canon-decode>
+  msg <opts> <card> <kind> <key|-> <text>  =>  <impl> <oracle>     (message-typed fields: delegation to protojson)
+  sdec <opts> <card> <kind> <key|-> <text> =>  <u> <tree;tree;…|-> fp:<tbl> <res;res;…>   (stream decoder, until first error)
+-/
 namespace GB.C09
 open GB GB.Proto
 
-/-- stub: replaced when the C09 slice is built -/
-def handle : Handler := fun _ _ => "BAD c09 unimplemented"
+/-- the enum `c09.E` of the harness schema (harness/c09/schema.go EnumTable) -/
+def enumE : EnumDesc :=
+  [(ascii "E_ZERO", 0), (ascii "E_ONE", 1), (ascii "E_TWO", 2), (ascii "E_UNO", 1), (ascii "E_NEG", -1),
+   (ascii "E_MAX", 2147483647), (ascii "E_MIN", -2147483648), (ascii "true", 7), (ascii "NaN", 8)]
+
+def enumNull : EnumDesc := [(ascii "NULL_VALUE", 0)]
+
+def parseKind : String → Option Kind
+  | "bool" => some .bool
+  | "int32" | "sint32" | "sfixed32" => some .int32
+  | "int64" | "sint64" | "sfixed64" => some .int64
+  | "uint32" | "fixed32" => some .uint32
+  | "uint64" | "fixed64" => some .uint64
+  | "float" => some .float
+  | "double" => some .double
+  | "string" => some .string
+  | "bytes" => some .bytes
+  | "enum" => some (.enum enumE false)
+  | "nullvalue" => some (.enum enumNull true)
+  | _ => none
+
+def kindTag : Kind → String
+  | .bool => "bool" | .int32 => "int32" | .int64 => "int64" | .uint32 => "uint32" | .uint64 => "uint64"
+  | .float => "float" | .double => "double" | .string => "string" | .bytes => "bytes"
+  | .enum _ nv => if nv then "nullvalue" else "enum"
+
+def parseCard (c key : String) : Option (Card × Bool) :=   -- Bool: explicit presence (has is observable)
+  match c with
+  | "sing" => some (.sing, false)
+  | "opt" | "oneof" => some (.sing, true)
+  | "rep" => some (.rep, false)
+  | "map" => (parseKind key).map fun kk => (.map kk, false)
+  | _ => none
+
+/-- `d` = the settings of transcoding.DefaultJSONMarshaler (DiscardUnknown + EmitDefaultValues), `s` = zero options -/
+def parseOpts (s : String) : Opts := { discard := s.contains 'd', enumNumbers := s.contains 'n', emitDefaults := s.contains 'd' }
+
+def unhex (s : String) : Option Bytes := hexDecodeChars s.toList
+def hex (b : Bytes) : String := String.ofList ((toHex b).toList.drop 1)
+
+/-! tree parser: tokens separated by ','  —  z t f n<hex> s<hex> [ … ] { k<hex> value … } -/
+
+partial def parseJ : List String → Option (J × List String)
+  | "z" :: r => some (.null, r)
+  | "t" :: r => some (.bool true, r)
+  | "f" :: r => some (.bool false, r)
+  | "[" :: r => parseArr r []
+  | "{" :: r => parseObj r []
+  | tok :: r =>
+    match tok.toList with
+    | 'n' :: h => (hexDecodeChars h).map fun b => (.num b, r)
+    | 's' :: h => (hexDecodeChars h).map fun b => (.str b, r)
+    | _ => none
+  | [] => none
+where
+  parseArr : List String → List J → Option (J × List String)
+    | "]" :: r, acc => some (.arr acc.reverse, r)
+    | toks, acc => match parseJ toks with
+      | some (j, r) => parseArr r (j :: acc)
+      | none => none
+  parseObj : List String → List (Bytes × J) → Option (J × List String)
+    | "}" :: r, acc => some (.obj acc.reverse, r)
+    | k :: toks, acc =>
+      match k.toList with
+      | 'k' :: h =>
+        match hexDecodeChars h, parseJ toks with
+        | some kb, some (j, r) => parseObj r ((kb, j) :: acc)
+        | _, _ => none
+      | _ => none
+    | [], _ => none
+
+def parseTree (s : String) : Option J :=
+  match parseJ (s.splitOn ",") with
+  | some (j, []) => some j
+  | _ => none
+
+/-! values -/
+
+def showF : F → String
+  | .nan => "nan" | .pinf => "pinf" | .ninf => "ninf" | .fin b => s!"b{b}"
+
+def parseF (s : String) : Option F :=
+  match s with
+  | "nan" => some .nan
+  | "pinf" => some .pinf
+  | "ninf" => some .ninf
+  | _ => match s.toList with
+    | 'b' :: d => (String.ofList d).toNat?.map .fin
+    | _ => none
+
+def showScalar : Scalar → String
+  | .bool b => if b then "t" else "f"
+  | .int i => s!"i{i}"
+  | .flt f => showF f
+  | .str s => "s" ++ hex s
+  | .bytes b => "y" ++ hex b
+  | .enum n => s!"e{n}"
+
+def parseScalar (s : String) : Option Scalar :=
+  match s with
+  | "t" => some (.bool true)
+  | "f" => some (.bool false)
+  | _ =>
+    match parseF s with
+    | some f => some (.flt f)
+    | none =>
+      match s.toList with
+      | 'i' :: d => (String.ofList d).toInt?.map .int
+      | 'e' :: d => (String.ofList d).toInt?.map .enum
+      | 's' :: h => (hexDecodeChars h).map .str
+      | 'y' :: h => (hexDecodeChars h).map .bytes
+      | _ => none
+
+def strLt (a b : String) : Bool := a < b
+
+def insertSorted (x : String) : List String → List String
+  | [] => [x]
+  | y :: ys => if strLt y x then y :: insertSorted x ys else x :: y :: ys
+
+def sortStrings (l : List String) : List String := l.foldr insertSorted []
+
+/-- canonical text of a field; map entries sorted (Go map order is not observable) -/
+def showField : Field → String
+  | .sing none => "S-"
+  | .sing (some v) => "S" ++ showScalar v
+  | .list xs => "L" ++ ",".intercalate (xs.map showScalar)
+  | .map kvs => "M" ++ ",".intercalate (sortStrings (kvs.map fun p => showScalar p.1 ++ "=" ++ showScalar p.2))
+
+def parseField (s : String) : Option Field :=
+  match s.toList with
+  | 'S' :: r => if r == ['-'] then some (.sing none) else (parseScalar (String.ofList r)).map (fun v => .sing (some v))
+  | 'L' :: r =>
+    if r.isEmpty then some (.list [])
+    else ((String.ofList r).splitOn ",").mapM parseScalar |>.map .list
+  | 'M' :: r =>
+    if r.isEmpty then some (.map [])
+    else ((String.ofList r).splitOn ",").mapM (fun (e : String) =>
+      match e.splitOn "=" with
+      | [a, b] => match parseScalar a, parseScalar b with
+        | some x, some y => some (x, y)
+        | _, _ => none
+      | _ => none) |>.map .map
+  | _ => none
+
+/-- ERR | PANIC | OK:<has>:<field> -/
+inductive Obs where
+  | err | panic
+  | ok (has : String) (f : Field)
+
+def parseObs (s : String) : Option Obs :=
+  if s == "ERR" then some .err
+  else if s == "PANIC" then some .panic
+  else match s.splitOn ":" with
+    | ["OK", h, f] => (parseField f).map (.ok h)
+    | _ => none
+
+/-! float tables -/
+
+def parseFp (s : String) : Option (List (Bytes × Option F)) :=
+  match s.toList with
+  | 'f' :: 'p' :: ':' :: r =>
+    if r.isEmpty then some []
+    else ((String.ofList r).splitOn ";").mapM fun (e : String) =>
+      match e.splitOn "=" with
+      | [h, v] =>
+        match unhex h with
+        | none => none
+        | some b => if v == "-" then some (b, none) else (parseF v).map fun f => (b, some f)
+      | _ => none
+  | _ => none
+
+def parseFf (s : String) : Option (List (Nat × Bytes)) :=
+  match s.toList with
+  | 'f' :: 'f' :: ':' :: r =>
+    if r.isEmpty then some []
+    else ((String.ofList r).splitOn ";").mapM fun (e : String) =>
+      match e.splitOn "=" with
+      | [b, h] => match b.toNat?, unhex h with
+        | some n, some t => some (n, t)
+        | _, _ => none
+      | _ => none
+  | _ => none
+
+/-- the float operations as observed from the Go runtime for this case (a table; misses = error / empty) -/
+def tableOps (fp : List (Bytes × Option F)) (ff : List (Nat × Bytes)) : FloatOps where
+  parse := fun _ s => match fp.find? (fun p => p.1 == s) with
+    | some (_, r) => r
+    | none => none
+  fmt := fun _ b => match ff.find? (fun p => p.1 == b) with
+    | some (_, t) => t
+    | none => []
+
+/-- exactly representable sanity check of the table: a plain integer literal of magnitude < 2^24 must parse
+    to the float with exactly that value (guards against a self-fulfilling float table). -/
+def smallIntBits (is32 : Bool) (neg : Bool) (n : Nat) : Nat :=
+  if n = 0 then (if neg then (if is32 then 2 ^ 31 else 2 ^ 63) else 0)
+  else
+    let e := n.log2
+    let (mb, bias, sh) := if is32 then (23, 127, 31) else (52, 1023, 63)
+    (if neg then 2 ^ sh else 0) + (e + bias) * 2 ^ mb + (n - 2 ^ e) * 2 ^ (mb - e)
+
+def fpSane (is32 : Bool) (fp : List (Bytes × Option F)) : Bool :=
+  fp.all fun (s, r) =>
+    match plainInt s with
+    | some (neg, ds) =>
+      if ds.length ≤ 7 && isValidNumber s then r == some (.fin (smallIntBits is32 neg (digitsValue ds))) else true
+    | none => true
+
+/-! comparison helpers -/
+
+def fieldEq (k : Kind) (a b : Field) : Bool := showField (a.read k) == showField (b.read k)
+
+/-- map results when several JSON names denote one proto key: Go iterates the decoded map in random order,
+    every surviving entry must be one of the model's entries and every model key must be present -/
+def mapConsistent (model impl : List (Scalar × Scalar)) : Bool :=
+  impl.all (fun e => model.contains e) && model.all (fun e => impl.any (fun e' => e'.1 == e.1)) && keysUnique impl
+
+def resTag : Res Field → String
+  | .ok f => "OK:" ++ showField f
+  | .err => "ERR"
+  | .panic => "PANIC"
+
+def specTag : Option (Res Field) → String
+  | none => "grey"
+  | some r => resTag r
+
+def expectedHas (explicit : Bool) : Field → String
+  | .sing (some _) => if explicit then "1" else "-"
+  | .sing none => if explicit then "0" else "-"
+  | _ => "-"
+
+def leavesOf : J → List J
+  | .arr xs => xs
+  | .obj kvs => kvs.map (·.2)
+  | j => [j]
+
+def isIntKind : Kind → Bool
+  | .int32 | .int64 | .uint32 | .uint64 => true
+  | _ => false
+
+/-- protojson v1.33 reads the first number token inside a quoted string and ignores what follows
+    (`"1,5"`, `"1 2"` are accepted as 1 for integer fields). The specification rejects such strings;
+    the cross-check of the specification against protojson is skipped for them. -/
+def protojsonLaxQuotedNumber (k : Kind) (tree : Option J) : Bool :=
+  isIntKind k && match tree with
+    | some j => (leavesOf j).any fun l => match l with
+      | .str s => !isValidNumber s
+      | _ => false
+    | none => false
+
+/-- judge one decode observation against model and specification; returns a verdict -/
+def judgeDec (ops : FloatOps) (o : Opts) (c : Card) (explicit : Bool) (k : Kind) (tree : Option J) (crossCheck : Bool)
+    (impl oracle : Obs) : String :=
+  let model : Res Field := match tree with
+    | some j => decode ops o c k j
+    | none => .err
+  let spec : Option (Res Field) := match tree with
+    | some j => canon ops o c k j
+    | none => none
+  let kt := kindTag k
+  match impl with
+  | .panic => s!"VIOL panic model={resTag model} spec={specTag spec}"
+  | .err =>
+    match model with
+    | .err =>
+      let nt := if tree.isSome && spec.isSome then " nt" else ""
+      -- cross-check the specification with protojson
+      match spec, oracle with
+      | some (.ok f), .err => if crossCheck then s!"DIFF spec-accepts-oracle-rejects spec={showField f}" else s!"OK{nt} b={kt}.err"
+      | some .err, .ok _ f =>
+        if crossCheck && !protojsonLaxQuotedNumber k tree then s!"DIFF spec-rejects-oracle-accepts oracle={showField f}" else s!"OK{nt} b={kt}.err"
+      | some (.ok f), .ok _ f' => if crossCheck && !fieldEq k f f' then s!"DIFF spec-oracle-value spec={showField f} oracle={showField f'}" else s!"OK{nt} b={kt}.err"
+      | _, _ => s!"OK{nt} b={kt}.err"
+    | m => s!"DIFF model={resTag m}"
+  | .ok has f =>
+    -- the property's clauses first
+    match spec with
+    | some .err => s!"VIOL accepted-what-canonical-rejects impl={showField f} model={resTag model}"
+    | _ =>
+      let specBad := match spec with
+        | some (.ok f') => !fieldEq k f f'
+        | _ => false
+      let oracleBad := match oracle with
+        | .ok _ f'' => crossCheck && !fieldEq k f f''
+        | _ => false
+      if specBad then s!"VIOL value-differs-from-canonical impl={showField f} spec={specTag spec} model={resTag model}"
+      else if oracleBad then
+        match oracle with
+        | .ok _ f'' => s!"VIOL value-differs-from-protojson impl={showField f} oracle={showField f''} model={resTag model}"
+        | _ => "BAD unreachable"
+      else
+        match model with
+        | .ok mf =>
+          let same := match mf, f with
+            | .map mk, .map ik => if keysUnique mk then showField mf == showField f else mapConsistent mk ik
+            | _, _ => showField (mf.read k) == showField f
+          if !same then s!"DIFF model={resTag model}"
+          else if has != expectedHas explicit mf then s!"DIFF has model={expectedHas explicit mf}"
+          else
+            match spec, oracle with
+            | some (.ok _), .err => if crossCheck then "DIFF spec-accepts-oracle-rejects" else s!"OK nt b={kt}.ok"
+            | _, _ =>
+              let g := if spec.isNone then "grey" else "ok"
+              s!"OK nt b={kt}.{g}"
+        | m => s!"DIFF model={resTag m}"
+
+def scalarsOf : Field → List Scalar
+  | .sing (some v) => [v]
+  | .sing none => []
+  | .list xs => xs
+  | .map kvs => kvs.map (·.2) ++ kvs.map (·.1)
+
+def encodable (k : Kind) (f : Field) : Bool :=
+  (scalarsOf f).all fun s => match s with
+    | .str b => validUtf8 b
+    | .enum n => match k with
+      | .enum _ true => n == 0
+      | _ => true
+    | _ => true
+
+/-- tree equality up to the order of object members (Go map order; encoding/json sorts by name) -/
+def showJ : J → String
+  | .null => "z" | .bool b => if b then "t" else "f"
+  | .num l => "n" ++ hex l | .str s => "s" ++ hex s
+  | .arr xs => "[" ++ ",".intercalate (xs.attach.map fun ⟨x, _⟩ => showJ x) ++ "]"
+  | .obj kvs => "{" ++ ",".intercalate (sortStrings (kvs.attach.map fun ⟨p, _⟩ => "k" ++ hex p.1 ++ ":" ++ showJ p.2)) ++ "}"
+termination_by j => sizeOf j
+decreasing_by
+  all_goals simp_wf
+  · have := List.sizeOf_lt_of_mem ‹_›; omega
+  · have h := List.sizeOf_lt_of_mem ‹_›
+    have : sizeOf p.2 < sizeOf p := by cases p; simp; omega
+    omega
+
+def handle : Handler
+  | ["dec", os, cs, ks, keys, _text], [u, ts, fps, impls, oracles] =>
+    match parseKind ks, parseCard cs keys, parseFp fps, parseObs impls, parseObs oracles with
+    | some k, some (c, explicit), some fp, some impl, some oracle =>
+      let tree := if ts == "!" then some none else (parseTree ts).map some
+      match tree with
+      | none => "BAD tree"
+      | some tree =>
+        if !fpSane (is32 k) fp then "DIFF float-table-not-exact-on-small-integers"
+        else judgeDec (tableOps fp []) (parseOpts os) c explicit k tree (u == "u1") impl oracle
+    | _, _, _, _, _ => "BAD dec fields"
+  | ["enc", os, cs, ks, keys, fs], [ts, ffs, fps, rts, cds] =>
+    match parseKind ks, parseCard cs keys, parseField fs, parseFf ffs, parseFp fps with
+    | some k, some (c, _), some f, some ff, some fp =>
+      let ops := tableOps fp ff
+      let o := parseOpts os
+      let kt := kindTag k
+      if ts == "PANIC" || rts == "PANIC" || cds == "PANIC" then "VIOL panic"
+      else if !encodable k f then s!"OK b=enc.{kt}.unrepresentable"
+      else
+        let model := encode ops o k f
+        match model with
+        | .ok mj =>
+          if ts == "ERR" then s!"VIOL cannot-encode model={showJ mj}"
+          else match parseTree ts with
+            | none => "BAD enc tree"
+            | some ij =>
+              -- round trip and canonical acceptance are the property itself: judged before the model comparison
+              let want := showField (f.read k)
+              let got (s : String) : Option String := match parseObs s with
+                | some (.ok _ g) => some (showField (g.read k))
+                | _ => none
+              if got rts != some want then s!"VIOL roundtrip got={rts} want={want} text={showJ ij}"
+              else if got cds != some want then s!"VIOL canonical-not-accepted got={cds} want={want}"
+              else if showJ ij != showJ mj then s!"DIFF model={showJ mj}"
+              else match decode ops o c k mj with
+                | .ok g => if showField (g.read k) == want then s!"OK nt b=enc.{kt}" else s!"DIFF model-roundtrip={showField g}"
+                | r => s!"DIFF model-roundtrip={resTag r}"
+        | .err => s!"DIFF model-encode=ERR impl={ts}"
+        | .panic => s!"DIFF model-encode=PANIC impl={ts}"
+    | _, _, _, _, _ => "BAD enc fields"
+  | ["msg", _os, _cs, ks, _keys, _text], [impls, oracles] =>
+    -- message-typed fields: the code delegates to protojson; both accept ⇒ same message
+    if impls == "PANIC" then "VIOL panic"
+    else if impls == "ERR" then (if oracles == "ERR" then s!"OK b=msg.{ks}.botherr" else s!"OK nt b=msg.{ks}.implerr")
+    else if oracles == "ERR" then s!"OK nt b=msg.{ks}.implonly"
+    else if impls == oracles then s!"OK nt b=msg.{ks}.same"
+    else s!"VIOL message-differs-from-protojson impl={impls} oracle={oracles}"
+  | ["sdec", os, cs, ks, keys, _text], [u, tss, fps, ress] =>
+    match parseKind ks, parseCard cs keys, parseFp fps with
+    | some k, some (c, explicit), some fp =>
+      let ops := tableOps fp []
+      let o := parseOpts os
+      let trees := if tss == "-" then [] else tss.splitOn ";"
+      let ress := if ress == "-" then [] else ress.splitOn ";"
+      -- the model decodes value after value and stops at the first error (the harness does the same)
+      let rec go (ts rs : List String) (n : Nat) : String :=
+        match ts, rs with
+        | [], [] => s!"OK nt b=stream.{n}"
+        | _ :: _, [] => s!"DIFF stream-stopped-early at={n}"
+        | t :: ts', r :: rs' =>
+          match (if t == "!" then some none else (parseTree t).map some), parseObs r with
+          | some tree, some impl =>
+            let v := judgeDec ops o c explicit k tree false impl .err
+            if v.startsWith "OK" then
+              match impl with
+              | .ok _ _ => go ts' rs' (n + 1)
+              | _ => if rs'.isEmpty then s!"OK nt b=stream.{n}.err" else "DIFF stream-continues-after-error"
+            else s!"{v} at={n}"
+          | _, _ => "BAD sdec item"
+        | _, _ => s!"DIFF stream-length trees={trees.length} results={ress.length}"
+      let _ := u
+      go trees ress 0
+    | _, _, _ => "BAD sdec fields"
+  | _, _ => "BAD c09 line"
 
 end GB.C09
